@@ -7,12 +7,14 @@ KexGex._parse_kexdh_gex_request / _request_old over a stub transport.
 Search oracle: the property statement evaluated directly on the real objects.
 """
 import os
+import re
 import shutil
 import tempfile
 
 from common import coq, Raw
 
 PID = "C43"
+GENS = ["c43"]
 LEVEL_TEXT = ("Machine-checked proof (Coq, closed under the global context) over a model of ModulusPack "
               "(_parse_modulus acceptance, read_file, get_modulus: both scans and the fallback) that for every "
               "request (min, preferred, max) - inverted and inconsistent ones included - the size served is the "
@@ -20,14 +22,18 @@ LEVEL_TEXT = ("Machine-checked proof (Coq, closed under the global context) over
               "documented nearest-end fallback; that the entry returned is always the (generator, modulus) of a "
               "file line that passed the type/tests/tries/bit-length requirements; and that KexGex hands "
               "get_modulus a consistent request, unchanged when the client's request is consistent and within "
-              "the server's limits. The model is tied to primes.py / kex_gex.py by a differential run every time.")
+              "the server's limits. The acceptance thresholds and the KexGex limits in the model are regenerated from "
+              "the source (gen/c43.py); the model is tied to primes.py / kex_gex.py by a differential run every time, "
+              "over files with every line-terminator / final-newline layout.")
 LEVEL_NOTE = ("Trusted: Coq kernel + vm_compute; hand-written model coq/Model/C43.v validated by the "
-              "correspondence run; Python's str.split/int (a line is presented to the model already split and "
-              "parsed, unparsable lines as Bad); the random pick inside one size (_roll_random) is an input. "
+              "correspondence run; translator gen/c43.py (AST of _parse_modulus, fail-closed); Python's "
+              "str.split/int (the model gets one parsed line per line of the file, from an independent "
+              "universal-newline split of the file content by the harness; unparsable lines are Bad); the random pick inside one size (_roll_random) is an input. "
               "For inconsistent client requests (preferred outside [min, max]) or a preferred size outside the "
               "server's limits KexGex deliberately rewrites the request (source comment); the property is "
               "claimed there relative to the rewritten request only (C43_gex_widens_inconsistent_request).")
-TECHNIQUE = "Coq proof (fold invariants over the two scans, insertion-sort lemmas) + vm_compute differential correspondence"
+TECHNIQUE = ("Coq proof (fold invariants over the two scans, insertion-sort lemmas) over thresholds generated from "
+             "the source + vm_compute differential correspondence")
 
 REAL_SIZES = [512, 768, 1023, 1024, 1025, 1536, 2047, 2048, 3072, 4096, 6144, 8191, 8192, 8193, 10000]
 
@@ -177,11 +183,45 @@ class Pinned:
         self.P._roll_random = self.old
 
 
-def load_pack(tmpdir, texts):
+def layout_file(rng, texts):
+    """Join the line texts into file content: LF / CRLF / CR / mixed terminators, with or without a
+    final newline, with blank / whitespace / comment lines at the end."""
+    mode = rng.choice(["lf", "lf", "lf", "crlf", "mixed", "cr"])
+
+    def sep():
+        if mode == "mixed":
+            return rng.choice(["\n", "\r\n", "\n", "\r"])
+        return {"lf": "\n", "crlf": "\r\n", "cr": "\r"}[mode]
+
+    body = ""
+    for i, t in enumerate(texts):
+        body += t + (sep() if i < len(texts) - 1 else "")
+    end = rng.choice(["", "", "", "1", "1", "1", "2", "1# end of file", "1#end1", "  ", "1   ", "1\t1", "11# c"])
+    tail = "".join(sep() if ch == "1" else (sep() + sep() if ch == "2" else ch) for ch in end)
+    if not texts:
+        return rng.choice(["", tail, "# only a comment", "#x" + tail])
+    return body + tail
+
+
+def split_lines(content):
+    """Independent reading of 'the lines of the file' (universal newlines)."""
+    return re.split("\r\n|\r|\n", content)
+
+
+def ending_kind(content):
+    if not content:
+        return "file-empty"
+    if content[-1] not in "\r\n":
+        last = content.split("\n")[-1].split("\r")[-1].strip()
+        return "file-no-final-newline" + ("-comment-or-blank" if (not last or last[0] == "#") else "")
+    return "file-crlf" if "\r" in content else "file-lf"
+
+
+def load_pack(tmpdir, content):
     from paramiko.primes import ModulusPack
     path = os.path.join(tmpdir, "moduli")
-    with open(path, "w") as f:
-        f.write("\n".join(texts) + ("\n" if texts else ""))
+    with open(path, "w", newline="") as f:      # newline="": write the terminators exactly as generated
+        f.write(content)
     mp = ModulusPack()
     mp.read_file(path)
     return mp
@@ -233,21 +273,27 @@ def drive_gex(mp, old, req, r):
 
 
 # ---------------------------------------------------------------- checks on one case
-def check_direct(ctx, tmpdir, texts, req, r):
+def check_direct(ctx, tmpdir, content, req, r):
     """Run the real ModulusPack; apply the oracle; return the canonical output."""
     from paramiko.ssh_exception import SSHException
-    mp = load_pack(tmpdir, texts)
-    accepted = [x for x in (ref_parse(t) for t in texts) if x is not None]
+    mp = load_pack(tmpdir, content)
+    accepted = [x for x in (ref_parse(t) for t in split_lines(content)) if x is not None]
     sizes = sorted({a[0] for a in accepted})
-    case = {"path": "direct", "lines": texts, "req": list(req), "r": r}
+    case = {"path": "direct", "content": content, "req": list(req), "r": r}
     try:
         with Pinned(r):
             e = mp.get_modulus(*req)
     except SSHException:
         e = None
-    if sorted(mp.pack) != sizes or sum(len(v) for v in mp.pack.values()) != len(accepted):
-        ctx.fail("acceptance", "the pack does not hold exactly the lines meeting the primality-test / bit-length "
-                 "requirements", case=case, expected=sizes, observed=sorted(mp.pack))
+    held = sorted((k, g, p) for k, v in mp.pack.items() for g, p in v)
+    if held != sorted(accepted):
+        missing = [a for a in accepted if a not in held]
+        ctx.fail("acceptance-line-lost" if missing else "acceptance",
+                 "the pack does not hold exactly the lines of the file meeting the primality-test / bit-length "
+                 "requirements (%d acceptable line(s) missing, %d unacceptable stored)"
+                 % (len(missing), len([h for h in held if h not in accepted])),
+                 case=case, expected=[[a[0], a[1], a[2] % 2 ** 64] for a in sorted(accepted)],
+                 observed=[[a[0], a[1], a[2] % 2 ** 64] for a in held])
     if e is None:
         if accepted:
             ctx.fail("no-offer", "get_modulus raised although the file has an acceptable group", case=case)
@@ -264,11 +310,11 @@ def check_direct(ctx, tmpdir, texts, req, r):
     return [0] + canon_entry(e) + [-1] + dump_pack(mp), sizes
 
 
-def check_gex(ctx, tmpdir, texts, old, req, r, limits):
-    mp = load_pack(tmpdir, texts)
-    accepted = [x for x in (ref_parse(t) for t in texts) if x is not None]
+def check_gex(ctx, tmpdir, content, old, req, r, limits):
+    mp = load_pack(tmpdir, content)
+    accepted = [x for x in (ref_parse(t) for t in split_lines(content)) if x is not None]
     sizes = sorted({a[0] for a in accepted})
-    case = {"path": "gex-old" if old else "gex", "lines": texts, "req": list(req), "r": r}
+    case = {"path": "gex-old" if old else "gex", "content": content, "req": list(req), "r": r}
     norm, e, exc, sent = drive_gex(mp, old, req, r)
     if e is None:
         if accepted:
@@ -296,34 +342,73 @@ def check_gex(ctx, tmpdir, texts, old, req, r, limits):
     return list(norm) + [0] + canon_entry(e)
 
 
-def model_lines(lines):
-    return "[" + ";".join("Bad" if ml == "Bad" else coq(ml) for _, ml, _ in lines) + "]"
+def model_of_text(piece):
+    """Model line for a piece of the file the generator did not produce as such (independent parse)."""
+    t = piece.strip()
+    if not t or t[0] == "#":
+        return "Bad"
+    f = t.split()
+    if len(f) != 7:
+        return "Bad"
+    try:
+        vals = [int(x) for x in f[1:6]] + [int(f[6], 16)]
+    except ValueError:
+        return "Bad"
+    return ("Line",) + tuple(vals)
+
+
+def model_lines(lines, content):
+    """The model's input: one fline per line of the file *content* (independent split); the generator's
+    compact rendering (2^k+c for large moduli) is reused when the piece is a generated line."""
+    known = {t.strip(): ml for t, ml, _ in lines}
+    out = []
+    for piece in split_lines(content):
+        ml = known.get(piece.strip())
+        if ml is None:
+            ml = model_of_text(piece)
+        out.append("Bad" if ml == "Bad" else coq(ml))
+    return "[" + ";".join(out) + "]"
+
+
+def guarded_model(ctx, *a, **k):
+    """The oracle must not depend on the model / translator: a failing model run is recorded, not raised."""
+    try:
+        return ctx.model_mismatches(*a, **k)
+    except Exception as e:      # noqa
+        ctx.corr_broken.append({"what": "model evaluation failed", "error": str(e)[-1500:]})
+        return []
 
 
 def run(ctx):
     rng = ctx.rng
     scale = 4 if ctx.thorough else 1
-    ctx.rule = ("seeded generator (random.Random('C43-<seed>')): moduli files of 0..12 lines (valid, each "
+    ctx.rule = ("seeded generator (random.Random('C43-<seed>')): moduli files of 0..12 lines, LF/CRLF/CR/mixed terminators, "
+                "with and without a final newline, blank/comment lines at the end (valid lines, each "
                 "rejection reason, malformed text, random fields) at toy bit sizes 1..70 and at real sizes "
                 "512..10000; requests near the sizes present: consistent, inverted, prefer<min, prefer>max, "
                 "arbitrary; direct ModulusPack.get_modulus and KexGex new/old style requests (u32 fields). "
                 "A case is non-trivial when distinct and the file has at least one accepted line")
     ctx.trusted += ["model coq/Model/C43.v is hand-written; tied to paramiko/primes.py and kex_gex.py by this "
                     "differential run (vm_compute of the model's own definitions)",
-                    "str.split / int() parsing of a moduli line is outside the model (lines are handed to the "
-                    "model parsed; the harness's classification of unparsable lines uses the same Python calls)",
+                    "str.split / int() parsing of a moduli line is outside the model (the model gets one parsed "
+                    "fline per line of the file, obtained by an independent universal-newline split of the "
+                    "file content; unparsable lines are Bad)",
                     "_roll_random is pinned to r mod n in the harness process"]
     ctx.assumptions += ["KexGex path: property claimed for consistent requests (min <= preferred <= max) whose "
                         "preferred size lies within the server's limits; other requests are rewritten by design"]
-    ctx.prove()
+    ctx.prove(GENS)
     from paramiko.kex_gex import KexGex
     limits = (KexGex.min_bits, KexGex.max_bits)
     tmpdir = tempfile.mkdtemp(prefix="verif-c43-")
     try:
         # the recorded witness first
-        out, _ = check_direct(ctx, tmpdir, ["0 2 6 100 2047 2 %x" % (2 ** 2047 + 5), "0 2 6 100 4095 2 %x" % (2 ** 4095 + 7)],
-                              (4096, 2048, 8192), 0)
+        w = ["0 2 6 100 2047 2 %x" % (2 ** 2047 + 5), "0 2 6 100 4095 2 %x" % (2 ** 4095 + 7)]
+        check_direct(ctx, tmpdir, "\n".join(w) + "\n", (4096, 2048, 8192), 0)
         ctx.count(("witness",), kind="direct-witness")
+        # a file without a final newline whose last line is the only right answer
+        check_direct(ctx, tmpdir, "\n".join(w), (1024, 4096, 8192), 0)
+        check_gex(ctx, tmpdir, "\r\n".join(w), False, (1024, 4096, 8192), 0, limits)
+        ctx.count(("witness-no-final-newline",), kind="direct-witness")
 
         # ---- 1. direct ModulusPack --------------------------------------------
         cases = []
@@ -331,22 +416,27 @@ def run(ctx):
             real = rng.random() < 0.3
             lines = gen_file(rng, real)
             texts = [t for t, _, _ in lines]
+            content = layout_file(rng, texts)
             sizes0 = sorted({a[0] for a in (ref_parse(t) for t in texts) if a})
             req = gen_request(rng, sizes0, real, u32=False)
+            if sizes0 and rng.random() < 0.3:          # make the last accepted line the only right answer
+                last = [a for a in (ref_parse(t) for t in texts) if a][-1][0]
+                req = (rng.choice([0, last - 1, last]), last, rng.choice([last, last + 1, 2 ** 20]))
             r = rng.randrange(0, 50)
-            out, sizes = check_direct(ctx, tmpdir, texts, req, r)
-            cases.append((lines, req, r, out))
+            out, sizes = check_direct(ctx, tmpdir, content, req, r)
+            cases.append((lines, req, r, out, content))
+            ctx.dist[ending_kind(content)] = ctx.dist.get(ending_kind(content), 0) + 1
             shape = ("consistent" if req[0] <= req[1] <= req[2] else "inverted" if req[0] > req[2]
                      else "pref<min" if req[1] < req[0] else "pref>max")
             ctx.count(("direct", texts, req, r), nontrivial=bool(sizes), kind="direct-" + shape)
             for _, _, k in lines:
                 ctx.dist["line-" + k] = ctx.dist.get("line-" + k, 0) + 1
-        bad = ctx.model_mismatches(
-            "run_get", "(list fline * (Z * Z * Z) * Z)",
-            [("(%s, %s, %s)" % (model_lines(l), coq(tuple(req)), coq(r)), out) for l, req, r, out in cases])
+        bad = guarded_model(
+            ctx, "run_get", "(list fline * (Z * Z * Z) * Z)",
+            [("(%s, %s, %s)" % (model_lines(l, c), coq(tuple(req)), coq(r)), out) for l, req, r, out, c in cases])
         for i in bad[:3]:
             ctx.disagree("ModulusPack.read_file/get_modulus differs from the model",
-                         case={"lines": [t for t, _, _ in cases[i][0]], "req": cases[i][1], "r": cases[i][2]},
+                         case={"content": cases[i][4], "req": cases[i][1], "r": cases[i][2]},
                          impl=cases[i][3])
         ctx.sample({"direct": {"lines": [t[:60] for t, _, _ in cases[0][0]], "req": cases[0][1], "r": cases[0][2],
                                "impl": cases[0][3]}})
@@ -357,23 +447,31 @@ def run(ctx):
             real = rng.random() < 0.8
             lines = gen_file(rng, real)
             texts = [t for t, _, _ in lines]
+            content = layout_file(rng, texts)
             sizes0 = sorted({a[0] for a in (ref_parse(t) for t in texts) if a})
             req = gen_request(rng, sizes0, real, u32=True)
             old = rng.random() < 0.25
             r = rng.randrange(0, 50)
-            out = check_gex(ctx, tmpdir, texts, old, req, r, limits)
-            cases.append((lines, old, req, r, out))
+            out = check_gex(ctx, tmpdir, content, old, req, r, limits)
+            cases.append((lines, old, req, r, out, content))
             ctx.count(("gex", texts, old, req, r), nontrivial=bool(sizes0), kind="gex-old" if old else
                       ("gex-consistent" if req[0] <= req[1] <= req[2] and limits[0] <= req[1] <= limits[1]
                        else "gex-rewritten"))
-        bad = ctx.model_mismatches(
-            "run_gex", "(list fline * bool * (Z * Z) * (Z * Z * Z) * Z)",
-            [("(%s, %s, %s, %s, %s)" % (model_lines(l), coq(old), coq(limits), coq(tuple(req)), coq(r)), out)
-             for l, old, req, r, out in cases])
+        bad = guarded_model(
+            ctx, "run_gex", "(list fline * bool * (Z * Z * Z) * Z)",
+            [("(%s, %s, %s, %s)" % (model_lines(l, c), coq(old), coq(tuple(req)), coq(r)), out)
+             for l, old, req, r, out, c in cases])
         for i in bad[:3]:
             ctx.disagree("KexGex request handling differs from the model",
-                         case={"lines": [t for t, _, _ in cases[i][0]], "old": cases[i][1], "req": cases[i][2],
+                         case={"content": cases[i][5], "old": cases[i][1], "req": cases[i][2],
                                "r": cases[i][3]}, impl=cases[i][4])
+        # the generated limits are the live class attributes
+        from paramiko.kex_gex import KexGexSHA256
+        for cls in (KexGex, KexGexSHA256):
+            live = [cls.min_bits, cls.max_bits, cls.preferred_bits]
+            if guarded_model(ctx, "run_limits", "Z", [("0", live)]):
+                ctx.disagree("Gen/C43_gen.v limits differ from %s.min_bits/max_bits/preferred_bits" % cls.__name__,
+                             impl=live)
         ctx.sample({"gex": {"lines": [t[:60] for t, _, _ in cases[0][0]], "old": cases[0][1], "req": cases[0][2],
                             "impl": cases[0][4]}})
     finally:
@@ -387,10 +485,11 @@ def replay(ctx, rep):
         from paramiko.kex_gex import KexGex
         ctx.count(("replay", repr(case)))
         ctx.count(("replay2", repr(case)))
+        content = case["content"] if "content" in case else "\n".join(case["lines"]) + "\n"
         if case.get("path") == "direct":
-            check_direct(ctx, tmpdir, case["lines"], tuple(case["req"]), case["r"])
+            check_direct(ctx, tmpdir, content, tuple(case["req"]), case["r"])
         else:
-            check_gex(ctx, tmpdir, case["lines"], case.get("path") == "gex-old", tuple(case["req"]), case["r"],
+            check_gex(ctx, tmpdir, content, case.get("path") == "gex-old", tuple(case["req"]), case["r"],
                       (KexGex.min_bits, KexGex.max_bits))
     finally:
         shutil.rmtree(tmpdir, ignore_errors=True)
